@@ -74,6 +74,8 @@ def _export(draw):
             "units": draw(st.sampled_from([None, None, "1/cm", "eV"])), "in_basis": draw(st.booleans()),
             "complex": draw(st.booleans()), "two_d": draw(st.booleans()), "axis": draw(st.booleans()),
             "n": draw(st.integers(2, 12)), "m": draw(st.integers(2, 4)),
+            # overall magnitude of the data (bath functions in J^2, weak responses, ...)
+            "magnitude": draw(st.sampled_from([1.0, 1.0, 1e-8, 1e-16, 1e-24, 1e12])),
             "ints": draw(st.lists(st.integers(-9, 9), min_size=96, max_size=96))}
 
 
@@ -115,6 +117,11 @@ def grid(tier):
                     for axis in (False, True):
                         yield {"kind": "export", "owner": owner, "fmt": fmt, "complex": cplx, "two_d": two_d,
                                "axis": axis, "n": 7, "m": 3, "ints": ints}
+                        if owner == "DFunction":
+                            # the same data on other overall scales
+                            for mag in (1e-8, 1e-16, 1e-24, 1e12):
+                                yield {"kind": "export", "owner": owner, "fmt": fmt, "complex": cplx, "two_d": two_d,
+                                       "axis": axis, "n": 7, "m": 3, "ints": ints, "magnitude": mag}
     base = {"kind": "export", "two_d": False, "axis": False, "n": 7, "m": 3, "ints": ints, "axis_type": "value"}
     for fmt in FORMATS:
         for units in (None, "1/cm", "eV"):
@@ -303,6 +310,8 @@ def build(qr, cls, ints):
                 tw.set_axis_3(qr.FrequencyAxis(2.0, 2, 0.01))
             tw._add_data(numpy.array(ints[k:k + 6], dtype=float).reshape(3, 2) * (1 + 1j), dtype="R2g", tag="a")
             tw._add_data(numpy.array(ints[k + 6:k + 12], dtype=float).reshape(3, 2) * (1 - 2j), dtype="R1g", tag="b")
+            # a second pathway of the first type
+            tw._add_data(numpy.array(ints[k + 12:k + 18], dtype=float).reshape(3, 2) * (2 + 1j), dtype="R2g", tag="c")
             tw.set_t2(10.0 * k)
             return tw
 
@@ -310,6 +319,10 @@ def build(qr, cls, ints):
             d = {}
             for name, v in x.get_all_data().items():
                 d[name] = numpy.array(v)
+            # the sum over the pathways of one type (flag without a tag), read twice
+            x.set_data_flag("R2g")
+            d["type-R2g"] = numpy.array(x.d__data)
+            d["type-R2g-read-again"] = numpy.array(x.d__data)
             x.set_data_flag(qr.signal_TOTL)
             d["total"] = numpy.array(x.d__data)
             d["t2"] = numpy.array([x.get_t2()])
@@ -696,6 +709,9 @@ def _check_export(case, ctx, tmp):
     if cplx:
         vals = vals + 1j * numpy.array([ints[(i + 7) % len(ints)] for i in range(size)], dtype=float)
     vals = vals.reshape(shape) / 7.0          # not exactly representable with a few decimal digits
+    vals = vals * float(case.get("magnitude", 1.0))
+    if case.get("magnitude", 1.0) != 1.0:
+        ctx.label("magnitude=%g" % case["magnitude"])
     atype = case.get("axis_type", "value")
     if atype == "time":
         ax, mk2 = qr.TimeAxis(1.5, n, 0.25), (lambda: qr.TimeAxis(0.0, n, 1.0))
@@ -724,7 +740,8 @@ def _check_export(case, ctx, tmp):
     if not ok:
         return
     got, gax = r
-    ctx.close("export-roundtrip", got, vals, rtol=1e-15, where=where)
+    ctx.close("export-roundtrip", got, vals, rtol=1e-15, atol=0.0, scale=max(1e-300, float(numpy.max(numpy.abs(vals)))),
+              where=where)
     if axis:
         with qr.energy_units("int"):
             axd = numpy.array(ax.data)
